@@ -128,6 +128,18 @@ def k_assoc(run, case):
     tr1, tr2 = gen.make_evo(a1, m1, meta={"id": 1}, flavour=f1), gen.make_evo(a2, m2, meta={"id": 2}, flavour=f2)
     if same_object:
         tr2 = tr1
+    linked = None
+    if rng.random() < .1:
+        # book-keeping of an evaluation script in the metadata: the estimate knows its reference and
+        # the reference its estimates (a reference cycle), or an object refers to itself
+        linked = ["mutual", "self", "one-way"][rng.integers(3)]
+        if linked == "mutual":
+            tr2.meta["reference"] = tr1
+            tr1.meta["estimates"] = [tr2]
+        elif linked == "self":
+            tr1.meta["self"] = tr1
+        else:
+            tr2.meta["reference"] = tr1
     gen.age(rng, tr1), gen.age(rng, tr2)
     if rng.random() < .3:
         tr1.poses_se3, tr1.positions_xyz, tr1.orientations_quat_wxyz
